@@ -41,7 +41,11 @@ CFG = {
          ["new_space", "-", "B", []], ["set_ref", "B", "t", ["obj", "A.k"], "absolute"],
          ["set_ref", "B", "s", ["obj", "A"], "absolute"], ["new_cells", "B", "g", F(9, 1, "g", "t")],
          ["new_cells", "B", "h", F(4, 1, "f", "r", "s")]],
-    ],
+        # asymmetric inheritance graphs (paths of different lengths to one space, sub spaces below the join): a deletion
+        # or detachment at the top re-derives every space below, some of them before one of their bases
+    ] + S.MOTIFS_DAG,
+    # more than four top-level spaces in the random histories (deeper and wider inheritance graphs)
+    "top_names": ["A", "B", "C", "D", "E", "G"],
 }
 RULE = ("random histories (14-28 ops) rich in deletions (cells, spaces with descendants, references, base "
         "relations, base members) with handles taken at earlier points; non-trivial = a handle to a derived member "
